@@ -9,9 +9,19 @@
   `(1+|ψ|)·qub_tol`, `(1+|φ|)·ls_tol` are part of the statements).
 
   *No smoothness of ψ is assumed*: ψ, ∇ψ, the direction provider and the stop schedule are arbitrary
-  oracles.  The only contract used is `ProxOpt` — the proximal-gradient step minimises its model —
-  and only for the safeguarded (`τ = 0`) step; `Props/C15` discharges it componentwise for the
-  box and box+ℓ1 steps.
+  oracles.  The only contract used is `ProxSpec n` — the proximal-gradient step minimises its model
+  (`ProxOpt`) on well-sized vectors — and only for the safeguarded (`τ = 0`) step.  It is *discharged*
+  for the shipped box / box+ℓ1 step (`BoxConstrProblem::eval_prox_grad_step`, model
+  `C15.proxGradStep`) by `proxSpec_box`, from the vector-level theorems of `Props/C15`
+  (`proxGradStep_vector_is_prox`, `proxGradStep_returns_h`, `proxGradStep_p_eq`,
+  `proxGradStep_xhat`): for that problem class no prox hypothesis is left.  That the loop only calls
+  the oracle on well-sized vectors is proved in `Proofs/PanocSized` from size contracts of the
+  oracles (`ProblemSized`) and of the direction provider (`DirSized`: a successful `apply` leaves a
+  `q` of size `n`).
+
+  Fuel: every loop-level theorem comes as `…_of_fuel` (assumes `fuelOut = false`, any stop schedule)
+  and in a main form where that is replaced by `StopMono stop` and `FuelOK pr n K`
+  (`Proofs/PanocFuel.run_fuel_suffices`).
 
   Forced hypotheses (each is listed where it is used):
   * `0 ≤ min_linesearch_coefficient` (otherwise `τ` can go negative and a step with `τ < 0` is
@@ -894,6 +904,41 @@ theorem accepted_step_descent_loop {n m : Nat} (hval : Vec α → α) (dom : Vec
     x0 y Sig errz0 gV gS iS hx0
     (run_fuel_suffices P dir d0 pr stop hm nf K hF oot x0 y Sig errz0 gV gS iS)
 
+/-! ### The box / box+ℓ1 problem class: no prox hypothesis left -/
+
+/-- Size contract of the smooth oracles (what remains to be assumed of a problem whose prox step is
+    the shipped one). -/
+structure SmoothSized (n m : Nat) (P : Problem α) : Prop where
+  pgp_grad : ∀ x, x.length = n → (P.psiGradPsi x).2.1.length = n
+  pgp_work : ∀ x, x.length = n → (P.psiGradPsi x).2.2.length = m
+  psi_yhat : ∀ x, x.length = n → (P.psi x).2.length = m
+  gradPsi : ∀ x, x.length = n → (P.gradPsi x).length = n
+  gradL : ∀ x y, x.length = n → y.length = m → (P.gradL x y).length = n
+
+theorem problemSized_of_box {n m : Nat} (l1 lb ub : Vec α) (P : Problem α) (hS : SmoothSized n m P)
+    (hprox : ∀ γ x g, P.prox γ x g = Alpaqa.C15.proxGradStep l1 γ x g lb ub) : ProblemSized n m P :=
+  ⟨hS.pgp_grad, hS.pgp_work, hS.psi_yhat, hS.gradPsi, hS.gradL,
+    fun γ x g hx _ => by rw [hprox, Alpaqa.Props.C15.proxGradStep_xhat_length, hx],
+    fun γ x g hx _ => by rw [hprox, proxGradStep_p_length, hx]⟩
+
+/-- **Descent along the reported iterates for the box / box+ℓ1 problem class**
+    (`BoxConstrProblem::eval_prox_grad_step`): `accepted_step_descent_loop` with the prox contract
+    discharged by `proxSpec_box` — what is left are the data conditions of the box (`BoxData`), the
+    sizes of the smooth oracles' outputs and of the provider's `q`, and the parameter conditions. -/
+theorem accepted_step_descent_loop_box {n m : Nat} (l1 lb ub : Vec α) (hB : BoxData n l1 lb ub)
+    (P : Problem α) (hprox : ∀ γ x g, P.prox γ x g = Alpaqa.C15.proxGradStep l1 γ x g lb ub)
+    (hS : SmoothSized n m P) (dir : Direction D α) (hD : DirSized n dir) (d0 : D) (pr : Params α)
+    (hp : ParamsOK pr) (hrec : pr.recomputeLastProx = false) (stop : Nat → Bool)
+    (hm : StopMono stop) (nf K : Nat) (hF : FuelOK pr nf K) (oot : Bool)
+    (x0 y Sig errz0 gV : Vec α) (gS iS : α) (hx0 : x0.length = n) :
+    List.IsChain (fun a b : Callback α => DescTo pr a b.fbe)
+      (run P dir d0 pr stop oot x0 y Sig errz0 gV gS iS).callbacks ∧
+    ∀ cb ∈ (run P dir d0 pr stop oot x0 y Sig errz0 gV gS iS).callbacks,
+      cb.fbe = cb.it.fbe ∧ (cb.status = .Busy → 0 ≤ cb.tau) :=
+  accepted_step_descent_loop (hvalL1 l1 n) (domBox n lb ub) P (proxSpec_box n l1 lb ub hB P hprox)
+    (problemSized_of_box l1 lb ub P hS hprox) dir hD d0 pr hp hrec stop hm nf K hF oot
+    x0 y Sig errz0 gV gS iS hx0
+
 /-! ### Non-vacuity -/
 
 section examples
@@ -990,6 +1035,19 @@ example : List.IsChain (fun a b : Callback ℚ => b.it.gamma ≤ a.it.gamma) (rq
   gamma_antitone Pq dirNoop () prq paramsOK_prq (stopAt none) (stopAt_mono none) 1 9 fuelOK_prq
     false [1] [] [] [] [] 0 0
 
+/-- `gammaL_const` and `reported_iterate_qub_run` on the Newton run, every hypothesis discharged -/
+example : ∀ cb ∈ (rn none).callbacks,
+    cb.it.gamma * cb.it.L = prq.LgammaFactor ∧ 0 < cb.it.gamma ∧ 0 < cb.it.L :=
+  gammaL_const Pbox dirNewton () prq paramsOK_prq (stopAt none) (stopAt_mono none) 1 9 fuelOK_prq
+    false [1] [] [] [] [] 0 0
+
+example : ∀ cb ∈ (rn none).callbacks,
+    cb.it.psixhat ≤ cb.it.psix + cb.it.gradPsiTp + cb.it.L / 2 * cb.it.pTp +
+        (1 + |cb.it.psix|) * prq.qubTol ∨ prq.Lmax ≤ cb.it.L ∨
+    (InitInterrupted Pbox () prq (stopAt none) [1] [] 0 0 ∧ cb.k = 0) :=
+  reported_iterate_qub_run Pbox dirNewton () prq paramsOK_prq rfl (stopAt none) (stopAt_mono none) 1 9
+    fuelOK_prq false [1] [] [] [] [] 0 0
+
 /-- **an accepted accelerated step at loop level**: the box problem with the Newton provider —
     iteration 0 accepts `τ = 1` (envelope `21/80 → 0`), the next head converges -/
 example : (rn none).stats.status = .Converged ∧ (rn none).stats.iterations = 1 ∧
@@ -1001,6 +1059,13 @@ example : (rn none).stats.status = .Converged ∧ (rn none).stats.iterations = 1
 example : List.IsChain (fun a b : Callback ℚ => DescTo prq a b.fbe) (rn none).callbacks :=
   (accepted_step_descent_loop (n := 1) (m := 0) (hvalL1 [] 1) (domBox 1 [-10] [10]) Pbox
     (proxSpec_box 1 [] [-10] [10] boxData_ex Pbox (fun _ _ _ => rfl)) problemSized_Pbox
+    dirNewton dirSized_newton () prq paramsOK_prq rfl (stopAt none) (stopAt_mono none) 1 9 fuelOK_prq
+    false [1] [] [] [] [] 0 0 rfl).1
+
+/-- the same through `accepted_step_descent_loop_box` (only data / size conditions to supply) -/
+example : List.IsChain (fun a b : Callback ℚ => DescTo prq a b.fbe) (rn none).callbacks :=
+  (accepted_step_descent_loop_box (n := 1) (m := 0) [] [-10] [10] boxData_ex Pbox (fun _ _ _ => rfl)
+    ⟨fun x h => h, fun _ _ => rfl, fun _ _ => rfl, fun x h => h, fun x _ h _ => h⟩
     dirNewton dirSized_newton () prq paramsOK_prq rfl (stopAt none) (stopAt_mono none) 1 9 fuelOK_prq
     false [1] [] [] [] [] 0 0 rfl).1
 
